@@ -435,6 +435,8 @@ def python_arithmetic(prog: Program, rep, RID: str, funcs, why: str) -> int:
                 if isinstance(p, ast.IfExp) and cur is p.test:
                     kind = "test"
                     break
+                if isinstance(p, ast.BinOp) and isinstance(cur, (ast.ListComp, ast.List, ast.Tuple, ast.SetComp)):
+                    break      # `[...] + [0]` concatenates lists: no arithmetic on the elements
                 if isinstance(p, ast.BinOp) and isinstance(p.op, (ast.Add, ast.Sub, ast.Mult)):
                     guarded = isinstance(cur, ast.IfExp) and "Integral" in norm(cur.test)
                     kind, arith = ("converted" if guarded else "raw"), p
